@@ -208,6 +208,34 @@ class TU:
             raise AnalysisBroken('function %s not found in unit %s' % (name, self.unit))
         return f
 
+    def callgraph(self):
+        if getattr(self, '_cg', None) is None:
+            cg = {}
+            for f in self.func_list:
+                cs = set()
+                for n in f.walk():
+                    if n['k'] == 'CallExpr' and n.get('callee'):
+                        cs.add(n['callee'])
+                    elif n['k'] == 'DeclRefExpr' and n.get('dk') == 'func':
+                        cs.add(n['n'])  # address taken / callee position alike
+                cg[f.name] = cs
+            self._cg = cg
+        return self._cg
+
+    def reachable(self, entries):
+        """names of functions defined in this unit reachable from the entry functions (inclusive)"""
+        cg = self.callgraph()
+        seen, st = set(), [e for e in entries if e in self.funcs]
+        while st:
+            x = st.pop()
+            if x in seen:
+                continue
+            seen.add(x)
+            for c in cg.get(x, ()):
+                if c in self.funcs and c not in seen:
+                    st.append(c)
+        return seen
+
     def global_var(self, name, func=None):
         for g in self.globals:
             if g['name'] == name and g.get('func') == func:
@@ -346,7 +374,7 @@ def extract_file(path, scratch, flags, root=None):
     """run mirsa on an arbitrary C file (positive controls)"""
     if not os.path.exists(MIRSA):
         raise AnalysisBroken('extractor %s is not built (run MANIFEST.setup_cmd)' % MIRSA)
-    root = root or (os.path.dirname(path) + '/')
+    root = root or (os.path.dirname(path) + '/:' + REPO + '/')
     out = os.path.join(scratch, 'ctl_' + re.sub(r'[^A-Za-z0-9_]', '_', os.path.basename(path)) + '.json')
     cmd = [MIRSA, out, root, path, '--', '-resource-dir', _resource_dir(), '-w'] + list(flags)
     p = subprocess.run(cmd, stdout=subprocess.PIPE, stderr=subprocess.PIPE, text=True)
